@@ -38,6 +38,9 @@ def disc_path(pc, i):
         "file_named_target": "t%d/target.rs" % i,
         "git_lookalike": ".github/f%d.rs" % i,
         "dotdir": ".hidden%d/f.rs" % i,
+        "module_named_build": "mb%d/build.rs" % i,
+        "module_named_mod": "mm%d/mod.rs" % i,
+        "module_named_main": "mn%d/bin/main.rs" % i,
         "beside_git_file": "wt%d/m.rs" % i,
         "beside_target_file": "tf%d/m.rs" % i,
         "beside_target_link": "tl%d/m.rs" % i,
